@@ -401,10 +401,9 @@ func (e *Effects) analyseMust(fn *ssa.Function) *MustSummary {
 		}
 	}
 	// returns
-	kind := AcceptAny
-	if resultIndex(fn, AcceptNilErr) >= 0 {
-		kind = AcceptNilErr
-	}
+	// success = nil error, else true (a helper `setFromText(s) bool` defines its destination when it
+	// reports success), else any return
+	kind := autoAccept(fn)
 	acc, _ := acceptReturns(fn, kind)
 	accSet := map[*ssa.Return]ssa.Value{}
 	for _, a := range acc {
